@@ -139,6 +139,16 @@ CLAIMED.update({
     ),
 })
 
+CLAIMED.update({
+    "C04": (
+        "artefact agreement: an independent Folang tokenizer/segmenter compares every checked-in (source, generated) pair — file sets, ordered declaration tables, per-definition literal sequences and construct counts — plus gofmt idempotence, README/pkg_all.foi recipe evaluation on the checked-in files",
+        "The fixed point itself (build, run, compare bytes; generation 2) is an execution and is NOT decided. Decided is a necessary condition no test looks at: all 34 pairs agree in their ordered declarations (funcs with arity, structs with fields, union interface/methods/cases/constructors) and all 457 definitions agree in literal values and if/match/not/pipe/<>/&&/|| counts; "
+        "README.md and pkg_all.foi are what their recipes produce from the checked-in files. Catches one-sided edits of constants, declarations and counted constructs.",
+        "Does not catch edits of grouping, comparison operators, argument order or identifiers on one side only, nor a compiler change whose regenerated output was only partly checked in (one seeded variant of that kind is documented as undetected).",
+        "DESIGN.md §3 C04",
+    ),
+})
+
 NOT_APPLICABLE = {
 }
 
